@@ -555,7 +555,8 @@ ActivesAreOutline ==
         IF Running(f)
         THEN \/ fs[f].actives = Outline(fs[f].active)
              \/ \E k \in RunningCondMain(f) : fs[f].actives = HeadOf(k)
-        ELSE fs[f].actives = <<>> /\ fs[f].active = ""
+        ELSE \/ fs[f].actives = <<>> /\ fs[f].active = ""
+             \/ crashed # "" /\ fs[f].status = "aborted"   \* the tasker an exception unwound is dead as it was
 
 \* C06: enter and exit alternate ...
 Alternate == \A k \in FrameKeys : entered[k] \in {0, 1}
@@ -567,7 +568,7 @@ Expected(f, depth) ==
     ELSE LET ks == Range(Outline(fs[f].active)) IN
          ks \cup UNION {UNION {Expected(AuxesOf(k)[i], depth - 1) : i \in 1..Len(AuxesOf(k))} : k \in ks}
             \cup UNION {UNION {Expected(x, depth - 1) : x \in {y \in CondAuxesOf(k) : ~fs[y].done /\ fs[y].main = k}} : k \in ks}
-Bracket == Quiescent =>
+Bracket == (Quiescent /\ crashed # "error" /\ ~(crashed = "interrupt" /\ \E f \in Taskables : fs[f].status = "aborted" /\ fs[f].active # "")) =>
     {k \in FrameKeys : entered[k] = 1} = UNION {Expected(f, MaxAuxDepth + 1) : f \in Taskables \cup {g \in Framers : prog.framers[g].sched = "slave"}}
 
 \* C09: an original auxiliary is owned by at most one frame, and exactly while it is active
